@@ -321,26 +321,28 @@ Proof.
       * apply Hk'; auto using same_seq_refl.
 Qed.
 
-Lemma replay_code_ok : forall rws hi rs d gfb gfe saved,
+Lemma replay_code_ok : forall rws hi rs d gfb gfe saved e',
   (forall k f, In (k, f) rs -> In (k, f) rws /\ f_seq f = k /\ k < hi) -> saved <= hi -> (gfe <= hi \/ rs = []) ->
-  Forall (instr_ok rws hi) (replay_code rs d gfb gfe saved).
+  Forall (instr_ok rws hi) (replay_code rs d gfb gfe saved e').
 Proof.
-  intros rws hi rs. induction rs as [|[k f] rs IH]; intros d gfb gfe saved Hrs Hsv Hg; cbn [replay_code].
-  - destruct (saved <? gfe); [repeat constructor; discriminate|].
+  intros rws hi rs. induction rs as [|[k f] rs IH]; intros d gfb gfe saved e' Hrs Hsv Hg; cbn [replay_code].
+  - cbv zeta. destruct (saved <? gfe); [repeat constructor; discriminate|].
     apply Forall_app. split; [|repeat constructor].
-    destruct (gfb <? saved) eqn:E; [|constructor]. apply Z.ltb_lt in E.
-    constructor; [|constructor]. simpl. right; right. exists gfb, saved. split; auto; lia.
+    destruct (gfb <? Z.min saved (e' + 1)) eqn:E; [|constructor]. apply Z.ltb_lt in E.
+    constructor; [|constructor]. simpl. right; right. exists gfb, (Z.min saved (e' + 1)). split; auto; lia.
   - destruct (Hrs k f (or_introl eq_refl)) as (Hin & Hseq & Hlt).
     assert (Hrs' : forall k0 f0, In (k0, f0) rs -> In (k0, f0) rws /\ f_seq f0 = k0 /\ k0 < hi)
       by (intros; apply Hrs; right; auto).
     assert (Hge : gfe <= hi) by (destruct Hg as [|Hg]; [auto|discriminate]).
-    destruct (is_sess (f_ty f)).
+    cbv zeta. destruct (is_sess (f_ty f)).
     + apply IH; auto. left; lia.
     + constructor; [exact I|]. destruct (mem_z (f_seq f) d).
       * apply IH; auto. left; lia.
-      * apply Forall_app. split.
-        { destruct (gfb <? gfe) eqn:E; [|constructor]. apply Z.ltb_lt in E.
-          constructor; [|constructor]. simpl. right; right. exists gfb, gfe. split; auto; lia. }
+      * assert (Hge' : (if gfb <? f_seq f then f_seq f else gfe) <= hi) by (destruct (gfb <? f_seq f); lia).
+        apply Forall_app. split.
+        { destruct (gfb <? (if gfb <? f_seq f then f_seq f else gfe)) eqn:E; [|constructor]. apply Z.ltb_lt in E.
+          constructor; [|constructor]. simpl. right; right.
+          exists gfb, (if gfb <? f_seq f then f_seq f else gfe). split; auto; lia. }
         apply Forall_app. split.
         { destruct (f_pd f) eqn:Epd.
           - constructor; [simpl; discriminate|constructor].
